@@ -14,7 +14,7 @@ Stages == {"h11-head", "h11-body", "h2-preface", "h2-frames", "h2-hpack", "h2-st
            "socks-greet", "socks-auth", "socks-connect", "backend", "request"}
 Causes == {"malformed", "mutated", "eof", "refused", "inject:ConnectError", "inject:ConnectTimeout",
            "inject:ReadError", "inject:ReadTimeout", "inject:WriteError", "inject:WriteTimeout", "invalid-request",
-           "unsupported-scheme"}
+           "unsupported-scheme", "reset"}
 
 ProxyStage(st) == st \in {"connect-reply", "socks-greet", "socks-auth", "socks-connect"}
 
@@ -26,6 +26,9 @@ Allowed(st, ca) ==
     [] ca = "mutated"   -> {"ok", "RemoteProtocolError"} \cup (IF ProxyStage(st) THEN {"ProxyError"} ELSE {})
     [] ca = "eof"       -> {"RemoteProtocolError"} \cup (IF ProxyStage(st) THEN {"ProxyError"} ELSE {})
     [] ca = "refused"   -> {"ProxyError"}
+    \* the peer resets the caller's stream after the response head (any error code, REFUSED_STREAM
+    \* and NO_ERROR included): nothing can be re-sent transparently any more
+    [] ca = "reset"     -> {"RemoteProtocolError"}
     [] ca = "inject:ConnectError"   -> {"ConnectError"}
     [] ca = "inject:ConnectTimeout" -> {"ConnectTimeout"}
     [] ca = "inject:ReadError"      -> {"ReadError"}
